@@ -1056,9 +1056,47 @@ def r12(F, R):
     if len(roots) != 1:
         raise Unverifiable(f"capture-walking routine of the terminal writer: {len(roots)}")
     root = roots[0]
+    is_slice = lambda e: e[0] == "call" and re.search(r"Index<.*>.*::index$|str::traits.*::index$", e[1]) and len(e[2]) == 2 and D.is_variant(e[2][1], "std::ops::Range", "Range")
+
+    def pushed_once_in_order(p, slices, target_ok):
+        pushes = [e for e in p.effects if e[0] == "call" and re.search(r"String::push_str$|fmt::Write::write_str$", e[1]) and target_ok(e[2][0])]
+        order = []
+        for pu in pushes:
+            ids = [sl[4] for sl in slices if D.mentions(pu[2][1], lambda x, sl=sl: isinstance(x, tuple) and len(x) == 4 and x[0] == "call" and x[3] == sl[4])]
+            order.extend(ids)
+        return order == [sl[4] for sl in slices]
+
     rp = D.Deep(F, root, max_paths=50).run()
     if len(rp) != 1 or rp[0].cut:
-        raise Unverifiable("capture walker: the routine is not straight-line around one fold (unrecognised form)")
+        # loop form: the walk is a loop of the routine itself.  Two iterations are unrolled; along every path (complete, or cut at the third
+        # visit of the loop) the slices taken off the text must be consecutive from 0 — a cursor that moves without text breaks the chain of
+        # the next iteration — each pushed once, in order, into one buffer; a complete path ends with the slice up to the text's end
+        rows = D.Deep(F, root, max_paths=400, unroll=2).run()
+        if not rows:
+            raise Unverifiable("capture walker: empty table")
+        n_full = n_it = 0
+        for p in rows:
+            slices = [e for e in p.effects if is_slice(e)]
+            if len({_norm(sl[2][0]) for sl in slices}) > 1:
+                raise Unverifiable("capture walker: slices of more than one text")
+            rng = [(sl[2][1][3][0], sl[2][1][3][1]) for sl in slices]
+            conds = " ∧ ".join(f"{D.fmt(root, a)[:40]}={o}" for a, o in p.conds[:6]) or "always"
+            chain = all(_norm(rng[i][1]) == _norm(rng[i + 1][0]) for i in range(len(rng) - 1)) and (not rng or _norm(rng[0][0]) == ("const", 0))
+            R.check(chain, "terminal/step-text/pieces-are-consecutive", root, "slices along the path are consecutive from 0",
+                    f"[{conds}] the slices emitted along this path {[(D.fmt(root, a)[:16], D.fmt(root, b)[:16]) for a, b in rng]} are not consecutive from 0: "
+                    f"text between two positions is printed twice (cursor moved back) or lost")
+            tgts = {_norm(e[2][0]) for e in p.effects if e[0] == "call" and re.search(r"String::push_str$", e[1])}
+            R.check(len(tgts) <= 1 and pushed_once_in_order(p, slices, lambda t: True), "terminal/step-text/pieces-pushed-once", root, "each slice appended once, in order",
+                    f"[{conds}] the slices of the step text are not each appended exactly once, in order, to one text being built")
+            n_it += len(rng) > 1
+            if not p.cut:
+                n_full += 1
+                last = rng[-1][1] if rng else None
+                ok = last is not None and last[0] == "call" and re.search(r"str>?::len$", last[1]) and _norm(last[2][0]) == _norm(slices[-1][2][0])
+                R.check(ok, "terminal/step-text/tail", root, "the last slice ends at the text's end", f"[{conds}] the walk does not end with the slice up to the end of the step text")
+        R.check(n_full >= 1 and n_it >= 1, "terminal/step-text/walk-emits", root, f"{n_full} complete paths, {n_it} with emitting iterations", "loop-form walk: no complete or no emitting path")
+        R.floor(4)
+        return
     rp = rp[0]
     folds = [e for e in rp.effects if e[0] == "call" and re.search(r"Iterator::fold$", e[1]) and len(e[2]) == 3]
     if len(folds) != 1 or folds[0][2][2][0] != "closure" or folds[0][2][1][0] != "tuple":
@@ -1073,16 +1111,6 @@ def r12(F, R):
     step = F.bodies.get(fold[2][2][1]) or next((b for b in F.crate_bodies() if b.name == fold[2][2][1]), None)
     if step is None:
         raise Unverifiable("capture walker: step closure body")
-    is_slice = lambda e: e[0] == "call" and re.search(r"Index<.*>.*::index$|str::traits.*::index$", e[1]) and len(e[2]) == 2 and D.is_variant(e[2][1], "std::ops::Range", "Range")
-
-    def pushed_once_in_order(p, slices, target_ok):
-        pushes = [e for e in p.effects if e[0] == "call" and re.search(r"String::push_str$|fmt::Write::write_str$", e[1]) and target_ok(e[2][0])]
-        order = []
-        for pu in pushes:
-            ids = [sl[4] for sl in slices if D.mentions(pu[2][1], lambda x, sl=sl: isinstance(x, tuple) and len(x) == 4 and x[0] == "call" and x[3] == sl[4])]
-            order.extend(ids)
-        return order == [sl[4] for sl in slices]
-
     old = ("field", ("arg", 2), k)
     rows = D.Deep(F, step, max_paths=200).run()
     if not rows or any(p.cut for p in rows):
@@ -1123,4 +1151,43 @@ def r12(F, R):
     R.floor(7)
 
 
-RULES = [("R12", r12, None), ("R11", r11, None), ("R10", r10, ["all", "json"]), ("R9", r9, None), ("R8", r8, ["all", "junit"]), ("R7", r7, ["all", "json"]), ("R6", r6, ["all", "json"]), ("R5", r5, ["all", "junit"]), ("R1", r1, None), ("R2", r2, None), ("R3", r3, None), ("R4", r4, None)]
+def r13(F, R):
+    """Complete writes: report text reaches the `io::Write` sink through `write_all` (or `write_fmt`), never through the partial
+    `Write::write` whose count is dropped — a sink is allowed to accept only a prefix (LineWriter, pipes), the rest of the chunk would be
+    missing from the report.  The string helper every terminal line goes through returns `write_all(bytes of its parameter)`."""
+    from . import deep as D
+    partial = []
+    n_sites = 0
+    for b in F.crate_bodies():
+        for st, t in b.calls(lambda t: callee_is(t, r"io::Write::(write|write_vectored|write_all|write_fmt)$")):
+            n_sites += 1
+            if callee_is(t, r"io::Write::(write|write_vectored)$"):
+                # a forwarding `impl io::Write` may hand the count on to its own caller
+                fwd = (b.impl or {}).get("trait") == "std::io::Write" and re.search(r"::write(_vectored)?$", b.name) and \
+                    t["dest"]["l"] in {pl["l"] for pl in A.slice_back(b, start_locals=[0]).places}
+                if not fwd:
+                    partial.append((b, st))
+    for b, st in partial:
+        R.violation(f"complete-writes/{F.root_fn(b).short.rsplit('::', 2)[-2]}::{F.root_fn(b).short.rsplit('::', 1)[-1]}", st,
+                    "report bytes are handed to the partial `io::Write::write` and the accepted count is dropped: a sink that takes only a prefix "
+                    "(LineWriter / stdout, a pipe) loses the rest of the chunk — use write_all")
+    if not partial:
+        R.ok("complete-writes/no-partial-write", None, f"{n_sites} io::Write call site(s), none is the partial `write`")
+    hs = [b for b in F.crate_bodies() if re.search(r"writer::out::WriteStrExt::write_str$", b.name) or
+          ((b.impl or {}).get("trait") == "writer::out::WriteStrExt" and b.name.endswith("::write_str"))]
+    if len(hs) != 1:
+        if any(b.name.startswith("writer::out::") for b in F.crate_bodies()):
+            raise Unverifiable(f"the string-writing helper of writer::out: {len(hs)}")
+        return
+    rows = D.Deep(F, hs[0], max_paths=50).run()
+    ok = bool(rows) and all(not p.cut for p in rows)
+    for p in rows:
+        was = [e for e in p.effects if e[0] == "call" and re.search(r"io::Write::write_all$", e[1])]
+        ok = ok and len(was) == 1 and D.mentions(was[0][2][0], lambda x: x == ("arg", 1)) and D.mentions(was[0][2][1], lambda x: x == ("arg", 2) or x == ("L", 0, 2)) and \
+            D.mentions(p.ret, lambda x: isinstance(x, tuple) and len(x) == 4 and x[0] == "call" and x[3] == was[0][4])
+    R.check(ok, "complete-writes/write_str", hs[0], "write_str = self.write_all(bytes of the string), result returned",
+            "`WriteStrExt::write_str` does not return `self.write_all(<bytes of its parameter>)`: text may be written partially or its error dropped")
+    R.floor(2)
+
+
+RULES = [("R13", r13, None), ("R12", r12, None), ("R11", r11, None), ("R10", r10, ["all", "json"]), ("R9", r9, None), ("R8", r8, ["all", "junit"]), ("R7", r7, ["all", "json"]), ("R6", r6, ["all", "json"]), ("R5", r5, ["all", "junit"]), ("R1", r1, None), ("R2", r2, None), ("R3", r3, None), ("R4", r4, None)]
